@@ -318,8 +318,37 @@ def drive_checks(ctx, rng, k):
     ctx.mark_nontrivial(('drive', d, ptxt))
 
 
+def bracket_backslash_templates(ctx):
+    """Windows mode, file-name and path mode: an escaped backslash written as a member of a bracket expression stands for the
+    separator, so names that differ only in how they spell that separator get the same answer."""
+    pats = ['a[\\\\]b', 'a[x\\\\]b', 'a[!\\\\]b', '[\\\\]', '@(a[\\\\]b)', '*[\\\\]b', 'a[\\\\]', 'a[\\\\][\\\\]b', '?(x)[\\\\]*']
+    names = ['a/b', 'axb', 'a.b', '/', 'a/', '/b', 'a//b', 'ab', 'x/b']
+    n = 0
+    for pat in pats:
+        for mod in (F, G):
+            for extra in ((), ('CASE',), ('DOTMATCH',), ('IGNORECASE',)):
+                flags = flags_of(('FORCEWIN', 'EXTMATCH') + extra)
+                try:
+                    m = mod.compile(pat, flags=flags)
+                    for nm in names:
+                        a, b = m.match(nm), m.match(nm.replace('/', '\\'))
+                        n += 1
+                        if a is not b:
+                            ctx.disagree('Windows mode: an escaped backslash inside a bracket expression does not cover both spellings of the separator|'
+                                         + ('glob' if mod is G else 'fnmatch'),
+                                         {'api': mod.__name__.split('.')[-1], 'pattern': pat, 'flags': ['FORCEWIN', 'EXTMATCH'] + list(extra),
+                                          'name': nm, 'slash_got': a, 'backslash_got': b, 'mode': 'bracket-backslash'})
+                            break
+                except Exception as e:  # noqa: BLE001
+                    ctx.disagree(f'compile raised {type(e).__name__}', {'pattern': pat, 'mode': 'bracket-backslash'})
+    ctx.evals(n)
+    ctx.count('bracket_backslash_checks', n)
+
+
 def run(ctx):
     quick = ctx.quick
+    if ctx.shard == 0:
+        bracket_backslash_templates(ctx)
     p = pool()
     idx = 0
     for n in (1, 2):
@@ -378,6 +407,9 @@ def run(ctx):
 
 
 def replay(ctx, w):
+    if w.get('mode') == 'bracket-backslash':
+        bracket_backslash_templates(ctx)
+        return ctx.violations or None
     import random
     if 'ast' in w:
         toks = w['ast']
